@@ -4,6 +4,7 @@ import (
 	"bufio"
 	"bytes"
 	"encoding/binary"
+	"errors"
 	"fmt"
 	"io"
 	"math/bits"
@@ -289,6 +290,10 @@ func (it *indexedMessageIterator) loadChunk(chunkIndex *ChunkIndex) error {
 		}
 		_, err = io.ReadFull(it.lz4Reader, chunkSlot.buf)
 		if err != nil {
+			if errors.Is(err, io.EOF) {
+				// no data at all came out of the chunk: an error, not the end of the file
+				err = io.ErrUnexpectedEOF
+			}
 			return fmt.Errorf("failed to decompress lz4 chunk: %w", err)
 		}
 	default:
